@@ -17,7 +17,9 @@ GEN = ["gen_coll"]
 CORRESPONDENCES = ["recorded-collective-sequences~generated-skeletons"]
 RULE = ("real Snapshot.take / async_take+wait / restore on 2-4 simulated ranks whose application states differ: per-rank "
         "key sets disjoint, nested, or empty on some ranks; RNGState on a subset of ranks; value kinds (tensor, object, "
-        "primitive) varied; memory-budget override set or unset; restore with key sets different from the saving ones. "
+        "primitive) varied; memory-budget override set or unset; per-rank free memory (values around the points where the "
+        "automatic budget reaches its cap) and per-rank host names (one host, one per rank, pairs); restore with key sets "
+        "different from the saving ones. "
         "Each rank's recorded collective sequence must be a possible trace of the generated skeleton. Non-trivial = key "
         "sets differ between ranks; distinct by (scenario, api).")
 TRUSTED = [
@@ -28,7 +30,7 @@ TRUSTED = [
 ]
 ASSUMPTIONS = [
     "conditions classified Uniform really are identical on all ranks: environment knobs (memory-budget override, batching, "
-    "partitioner) are set identically; torch.distributed / the default store are initialised on all ranks or none; the "
+    "partitioner) are set identically (free memory and host names are rank-local and are varied per rank by the harness); torch.distributed / the default store are initialised on all ranks or none; the "
     "global key list is the sorted union gathered by all_gather_object",
     "collectives issued by application code inside state_dict()/load_state_dict() are the application's responsibility "
     "(the library separates stateful objects by barriers)",
@@ -56,7 +58,16 @@ def scenario(rng):
             ks = rng.sample(allkeys, rng.randint(0, 4))
         keysets.append(sorted(ks))
     rng_ranks = [r for r in range(W) if rng.random() < 0.4]
-    return {"W": W, "style": style, "keys": keysets, "rng_ranks": rng_ranks, "override": rng.random() < 0.5,
+    # rank-local runtime state: free memory of the rank's host (in GiB; boundary values around the points where
+    # 0.6 * available / n crosses the 32 GiB cap for n = 1..W) and the host the rank runs on
+    GiB = 1 << 30
+    bars = [int(32 * GiB * n / 0.6) for n in (1, 2, 3, 4)]
+    pool = [8 * GiB, 48 * GiB, 2048 * GiB] + [b + d for b in bars for d in (-GiB, GiB)]
+    hostsets = rng.choice(["one", "each", "pairs"])
+    hosts = [{"one": "h0", "each": f"h{r}", "pairs": f"h{r // 2}"}[hostsets] for r in range(W)]
+    per_host = {h: rng.choice(pool) for h in hosts}
+    mem = [per_host[hosts[r]] if rng.random() < 0.8 else rng.choice(pool) for r in range(W)]
+    return {"W": W, "style": style, "keys": keysets, "rng_ranks": rng_ranks, "override": rng.random() < 0.35, "mem": mem, "hosts": hosts,
             "kinds": {k: rng.choice(["tensor", "object", "prim", "mixed"]) for k in allkeys},
             "restore_shift": rng.choice([0, 0, 1]), "replicated": rng.choice([None, None, ["**"], ["a/**"], ["b/t", "zz_rng/**"]])}
 
@@ -111,6 +122,36 @@ def run_api(sc, api, path):
                         ok = ok and a[kk] == b[kk]
             return ok
         return True
+    import torchsnapshot.scheduler as schedmod
+
+    class _VM:
+        def __init__(self, available):
+            self.available = available
+
+    class _Psutil:
+        """psutil as one rank's process sees it: the free memory of that rank's host"""
+        def __getattr__(self, name):
+            return getattr(real_psutil, name)
+
+        def virtual_memory(self):
+            try:
+                r = world.rank()
+            except RuntimeError:
+                return real_psutil.virtual_memory()
+            return _VM(sc["mem"][r]) if sc.get("mem") else real_psutil.virtual_memory()
+
+    class _Socket:
+        def __getattr__(self, name):
+            return getattr(real_socket, name)
+
+        def gethostname(self):
+            try:
+                r = world.rank()
+            except RuntimeError:
+                return real_socket.gethostname()
+            return sc["hosts"][r] if sc.get("hosts") else real_socket.gethostname()
+    real_psutil, real_socket = schedmod.psutil, schedmod.socket
+    schedmod.psutil, schedmod.socket = _Psutil(), _Socket()
     saved = os.environ.get("TORCHSNAPSHOT_PER_RANK_MEMORY_BUDGET_BYTES")
     if sc["override"]:
         os.environ["TORCHSNAPSHOT_PER_RANK_MEMORY_BUDGET_BYTES"] = "50000000"
@@ -119,6 +160,7 @@ def run_api(sc, api, path):
     try:
         world.run(fn)
     finally:
+        schedmod.psutil, schedmod.socket = real_psutil, real_socket
         if saved is None:
             os.environ.pop("TORCHSNAPSHOT_PER_RANK_MEMORY_BUDGET_BYTES", None)
         else:
@@ -145,7 +187,7 @@ def correspond(ctx: Ctx) -> Result:
             differ = len({tuple(k) for k in sc["keys"]}) > 1 or 0 < len(sc["rng_ranks"]) < sc["W"]
             res.case({"api": api, "W": sc["W"], "style": sc["style"], "keys": sc["keys"], "rng_ranks": sc["rng_ranks"], "override": sc["override"], "replicated": sc.get("replicated")},
                      nontrivial=differ)
-            res.count("api", api); res.count("style", sc["style"]); res.count("override", sc["override"]); res.count("W", sc["W"]); res.count("replicated_globs", str(sc.get("replicated")))
+            res.count("api", api); res.count("style", sc["style"]); res.count("override", sc["override"]); res.count("free_memory_differs", len(set(sc.get("mem") or [0])) > 1); res.count("hosts", len(set(sc.get("hosts") or [0]))); res.count("W", sc["W"]); res.count("replicated_globs", str(sc.get("replicated")))
             replay = {"scenario": sc, "api": api}
             # --- the property, directly ---------------------------------------------------------------
             errs = [e for e in world.errors if e is not None]
